@@ -1221,7 +1221,11 @@ def sp_print(it, fr, *a, **k):
 
 
 def sp_id(it, fr, x):
-    raise Unsupported('id() (address-dependent behaviour)')
+    """identity of the (engine-level) object: stable and unique among the objects alive on the path.  Address
+    re-use after an object died is not modelled (outside the claim)."""
+    from .stubs import used
+    used('id(): identity of live objects; address re-use after garbage collection is not modelled')
+    return id(x) if not isinstance(x, SAny) else id(fr.split(x))
 
 
 def sp_hash(it, fr, x):
